@@ -109,6 +109,8 @@ func TestVerifC20Exhaustive(t *testing.T) {
 				out.Linef("viol sig=C20/runloop/watch-error-notification-lost state=%s: a provider sent an error notification, the run loop never acted on it (Run has not returned)", w.col.GetState())
 			} else if w.fatalSent.Load() > w.fatalBack.Load() {
 				out.Linef("viol sig=C20/runloop/run-wedged-while-fatal-error-report-pending state=%s: a component's FatalError report has not come back and the Run goroutine stopped making progress", w.col.GetState())
+			} else if d.fatalStuck {
+				out.Linef("viol sig=C20/runloop/fatal-error-report-never-received a component reported StatusFatalError through its host (report returned), the collector sat in the select and never received it: Run has not returned")
 			} else {
 				out.Linef("viol sig=C20/harness/run-goroutine-did-not-reach-expected-point at=%s", d.at)
 			}
